@@ -714,6 +714,9 @@ def _case_guard(items: list) -> None:
 # ---------------------------------------------------------------- codecs
 KNOWN_CODECS = ['ascii', 'us-ascii', 'utf-8', 'utf8', 'latin-1', 'latin1', 'iso-8859-1',
                 'utf-7', 'utf7', 'utf-16-be']
+# registered codecs that are not text encodings: codecs.lookup() finds them,
+# bytes.decode()/str.encode() refuse them with LookupError
+NONTEXT_CODECS = ['hex', 'base64', 'rot13', 'rot-13', 'zlib', 'bz2', 'uu', 'quopri', 'zip']
 
 
 def concretize_codec(encoding: Any) -> str:
@@ -728,7 +731,7 @@ def concretize_codec(encoding: Any) -> str:
         if c == 0:
             raise ValueError('embedded null character')
     low = encoding.lower()
-    for name in KNOWN_CODECS:
+    for name in KNOWN_CODECS + NONTEXT_CODECS:
         if len(low) == len(name) and low.replace('_', '-') == name:
             return name
     raise LookupError('unknown encoding (symbolic name)')
@@ -737,6 +740,8 @@ def concretize_codec(encoding: Any) -> str:
 def decode_items(items: list, encoding: Any, errors: str = 'strict') -> Any:
     encoding = concretize_codec(encoding)
     enc = encoding.lower().replace('_', '-')
+    if enc in NONTEXT_CODECS:
+        raise LookupError("'%s' is not a text encoding; use codecs.decode() to handle arbitrary codecs" % enc)
     if enc in ('ascii', 'us-ascii'):
         ok = AND(*[_in_range(c, 0, 127) for c in items])
         if errors == 'strict':
@@ -828,6 +833,8 @@ def _utf8_decode(items: list, errors: str) -> Any:
 def encode_items(items: list, encoding: Any, errors: str = 'strict') -> Any:
     encoding = concretize_codec(encoding)
     enc = encoding.lower().replace('_', '-')
+    if enc in NONTEXT_CODECS:
+        raise LookupError("'%s' is not a text encoding; use codecs.encode() to handle arbitrary codecs" % enc)
     if enc in ('ascii', 'us-ascii'):
         ok = AND(*[_in_range(c, 0, 127) for c in items])
         if ok:
